@@ -340,6 +340,7 @@ func (s *muxerStream) handleMediaPlaylist(w http.ResponseWriter, r *http.Request
 						break
 					}
 
+					verifHook("wait:blocking-reload")
 					s.cond.Wait()
 				}
 
@@ -383,6 +384,7 @@ func (s *muxerStream) handleMediaPlaylist(w http.ResponseWriter, r *http.Request
 				break
 			}
 
+			verifHook("wait:media-playlist")
 			s.cond.Wait()
 		}
 
@@ -706,6 +708,7 @@ func (s *muxerStream) rotateParts(
 						break
 					}
 
+					verifHook("wait:preload-hint")
 					s.cond.Wait()
 				}
 
